@@ -21,6 +21,7 @@ KNOWN = VERIF / "known_findings.json"
 DRIVER = LEAN / ".lake" / "build" / "bin" / "driver"
 ALLOWED_AXIOMS = {"propext", "Classical.choice", "Quot.sound"}
 GUARD = "ALGORAND_PYTEAL_VERIF"
+MAX_REPLAYS = 8
 
 
 class ToolFailure(Exception):
@@ -240,6 +241,9 @@ class Report:
                 if msg not in self.known_hits:
                     self.known_hits.append(msg)
                 return
+        self.n_violations = getattr(self, "n_violations", 0) + 1
+        if len(self.violations) >= MAX_REPLAYS:
+            return      # counted in the evidence; no further replay files for this run
         REPLAYS.mkdir(exist_ok=True)
         body = dict(replay)
         body.update({"property": self.prop, "what": what, "seed": seed(), "tier": self.tier})
@@ -259,7 +263,7 @@ class Report:
             "coverage": self.coverage,
             "assumptions": self.assumptions,
             "wall_s": round(time.time() - self.t0, 2),
-            "violations": len(self.violations),
+            "violations": getattr(self, "n_violations", len(self.violations)),
             "known_findings_reproduced": self.known_hits,
             "notes": self.notes,
         }
